@@ -506,6 +506,17 @@ func (a *Application) executeTranslatedStreamingRequest(
 		return fmt.Errorf("request cancelled while waiting for backend headers: %w", ctx.Err())
 	}
 
+	// The proxy gave up without ever answering (every attempt failed before a status line):
+	// there is nothing to translate, so report the failure instead of an empty stream.
+	if !streamRecorder.started {
+		proxyErr := <-proxyErrChan
+		pipeReader.Close()
+		if proxyErr != nil {
+			return fmt.Errorf("proxy request failed: %w", proxyErr)
+		}
+		return fmt.Errorf("backend returned no response")
+	}
+
 	// handle backend errors before starting sse stream
 	if streamRecorder.status >= 400 {
 		a.handleStreamingBackendError(w, pipeReader, streamRecorder, proxyErrChan, pr, trans)
@@ -854,6 +865,7 @@ type streamingResponseRecorder struct {
 	headersReady chan struct{}
 	closeOnce    sync.Once
 	status       int
+	started      bool // set before headersReady is closed by a real WriteHeader/Write
 }
 
 func newStreamingResponseRecorder(w io.Writer) *streamingResponseRecorder {
@@ -875,13 +887,26 @@ func (r *streamingResponseRecorder) ensureHeadersReady() {
 	r.closeOnce.Do(func() { close(r.headersReady) })
 }
 
+// markStarted records that the proxy produced a response. It is only written by the proxy
+// goroutine before headersReady is closed and only read after it, so it needs no lock.
+func (r *streamingResponseRecorder) markStarted() {
+	select {
+	case <-r.headersReady:
+		// already signalled; started must not be written after the reader may look at it
+	default:
+		r.started = true
+	}
+}
+
 func (r *streamingResponseRecorder) Write(data []byte) (int, error) {
+	r.markStarted()
 	r.ensureHeadersReady()
 	return r.writer.Write(data)
 }
 
 func (r *streamingResponseRecorder) WriteHeader(statusCode int) {
 	r.status = statusCode // Capture status code to detect backend errors
+	r.markStarted()
 	r.ensureHeadersReady()
 	// Don't propagate the status write for streaming; just mark headers sent.
 }
